@@ -436,6 +436,8 @@ func c02tree(c *Ctx) {
 func c02scale(c *Ctx) {
 	r := c.R
 	c02exact(c)
+	c02setters(c)
+	quotaDeleteMirror(c)
 	r.Rule("KEY-ROLE(min scaling): in ScaleMinQuotaManager.{update,remove,getScaledMinQuota} every keyed access to enableScaleSubsSumMinQuotaMap/disableScaleSubsSumMinQuotaMap uses the parent-name parameter and every keyed access to originalMinQuotaMap/quotaEnableMinQuotaScaleMap uses the quota's own name parameter (the sums belong to the parent; a quota's own name indexes the sums of ITS children)")
 	role := map[string]int{"enableScaleSubsSumMinQuotaMap": 0, "disableScaleSubsSumMinQuotaMap": 0, "originalMinQuotaMap": 1, "quotaEnableMinQuotaScaleMap": 1}
 	n := 0
@@ -528,6 +530,12 @@ func c02scale(c *Ctx) {
 
 // c02exact: change detection and deficit tests compare exactly; only short dimensions are rescaled.
 func c02exact(c *Ctx) {
+	exactCmpPackage(c)
+	c02exactRest(c)
+}
+
+// exactCmpPackage: shared by C01 (the request handed up is capped exactly) and C02.
+func exactCmpPackage(c *Ctx) {
 	r := c.R
 	r.Rule("EXACT-CMP(package): in package elasticquota/core no comparison has a Quantity.Value() reading on both sides (Value() rounds up to whole units, so two CPU amounts inside one core compare equal: a change-detection guard built on it drops sub-core request changes and the runtime keeps depending on history); quantities are compared by Cmp/Equal")
 	isValue := func(v ssa.Value) bool {
@@ -565,7 +573,10 @@ func c02exact(c *Ctx) {
 		}
 	}
 	r.Floor("EXACT-CMP", "exact quantity comparisons seen in package core (the scan is alive)", nExact, 10)
+}
 
+func c02exactRest(c *Ctx) {
+	r := c.R
 	r.Rule("MEMO(version tests are equalities): in package elasticquota/core every comparison that involves QuotaInfo.RuntimeVersion or a calculator's globalRuntimeVersion / getVersion() is == or != (a parent's calculator is replaced on re-creation and its counter restarts: 'at least as new' keeps a child's stale runtime until the new counter catches up)")
 	nVer := 0
 	for _, fn := range c.PkgFuncs(quotaCorePkg) {
